@@ -21,6 +21,8 @@ def segOk (f : String) : List Approval → List Ev → Prop
     who = whoObj ∧ opOk f op = true ∧ segOk f ((approvalOf w v path).toList ++ apps) rest
   | apps, .fs fn w p :: rest => safe p = true ∧ apps.any (okBy fn w p) = true ∧ segOk f apps rest
   | apps, .note _ :: rest => segOk f apps rest
+  | apps, .nest g _ _ inner :: rest => judgeNest g inner = [] ∧ segOk f apps rest
+  | apps, .edsave _ name :: rest => f = "ed" ∧ segOk f (⟨true, stripOneSlash name⟩ :: apps) rest
   | _, _ :: _ => False
 
 theorem fold_ok (f : String) (hf : compileCalls.contains f = false) :
@@ -60,6 +62,16 @@ theorem fold_ok (f : String) (hf : compileCalls.contains f = false) :
       rw [hstep]
       exact ih s hb he hw h3
     | note n => exact ih s hb he hw hs
+    | nest g w' a' inner =>
+      obtain ⟨h1, h2⟩ := hs
+      have hstep : judgeStep s (.nest g w' a' inner) = s := by simp [judgeStep, h1]
+      rw [hstep]
+      exact ih s hb he hw h2
+    | edsave st' name =>
+      obtain ⟨h1, h2⟩ := hs
+      subst h1
+      exact ih _ (by simp [judgeStep, he, hb]) (by simp [judgeStep, he]) (by simp [judgeStep, he, hw])
+        (by simpa [judgeStep, he] using h2)
     | lp _ _ => exact absurd hs (by simp [segOk])
     | il _ _ => exact absurd hs (by simp [segOk])
     | cvp _ _ _ => exact absurd hs (by simp [segOk])
@@ -129,6 +141,13 @@ theorem segOk_mono (f : String) : ∀ (evs : List Ev) (apps apps' : List Approva
       obtain ⟨a, ha, hk⟩ := h2
       exact ⟨a, hsub a ha, hk⟩
     | note n => exact ih _ _ hsub h
+    | nest g w' a' inner => exact ⟨h.1, ih _ _ hsub h.2⟩
+    | edsave st' name =>
+      refine ⟨h.1, ih _ _ ?_ h.2⟩
+      intro a ha
+      rcases List.mem_cons.mp ha with ha | ha
+      · exact List.mem_cons.mpr (Or.inl ha)
+      · exact List.mem_cons.mpr (Or.inr (hsub a ha))
     | lp _ _ => exact absurd h (by simp [segOk])
     | il _ _ => exact absurd h (by simp [segOk])
     | cvp _ _ _ => exact absurd h (by simp [segOk])
@@ -141,6 +160,7 @@ theorem segOk_mono (f : String) : ∀ (evs : List Ev) (apps apps' : List Approva
 def appsAfter : List Approval → List Ev → List Approval
   | apps, [] => apps
   | apps, .valid w path _ _ v :: rest => appsAfter ((approvalOf w v path).toList ++ apps) rest
+  | apps, .edsave _ name :: rest => appsAfter (⟨true, stripOneSlash name⟩ :: apps) rest
   | apps, _ :: rest => appsAfter apps rest
 
 theorem segOk_append (f : String) : ∀ (e1 e2 : List Ev) (apps : List Approval),
@@ -158,6 +178,8 @@ theorem segOk_append (f : String) : ∀ (e1 e2 : List Ev) (apps : List Approval)
       obtain ⟨a, b, c⟩ := h1
       exact ⟨a, b, ih e2 _ c h2⟩
     | note n => exact ih e2 _ h1 h2
+    | nest g w' a' inner => exact ⟨h1.1, ih e2 _ h1.2 h2⟩
+    | edsave st' name => exact ⟨h1.1, ih e2 _ h1.2 h2⟩
     | lp _ _ => exact absurd h1 (by simp [segOk])
     | il _ _ => exact absurd h1 (by simp [segOk])
     | cvp _ _ _ => exact absurd h1 (by simp [segOk])
@@ -168,6 +190,51 @@ theorem segOk_append (f : String) : ∀ (e1 e2 : List Ev) (apps : List Approval)
 
 theorem covers_self (fn : String) (a : CStr) : covers fn a a = true := by simp [covers]
 
+/-! ### re-entrant masters -/
+
+theorem opOk_eq (f op : String) : opOk f op = opAllowed f op := rfl
+
+theorem nest_single_ok (g op fn : String) (w fw : Bool) (a : CStr) (hop : opOk g op = true)
+    (hk : (if fw then w else (!w || fn == "stat")) = true) : judgeNest g (nestedSingle w op fn fw a) = [] := by
+  rw [opOk_eq] at hop
+  unfold nestedSingle judgeNest
+  cases h : checkValidPath true Verdict.ok a with
+  | none =>
+    simp only [List.foldl_cons, List.foldl_nil, nestStep, hop, ↓reduceIte]
+    cases approvalOf w Verdict.ok a <;> rfl
+  | some P =>
+    obtain ⟨h1, h2, h3, _⟩ := approved w _ _ _ h
+    have hna : absolute P = false := by
+      simp [safe] at h3; simpa [absolute] using h3.1
+    have hany : ([⟨w, P⟩] : List Approval).any (okBy fn fw P) = true :=
+      any_okBy _ fn fw P ⟨w, P⟩ (by simp) h2 (covers_self _ P) hk
+    simp only [List.foldl_cons, List.foldl_nil, nestStep, hop, ↓reduceIte, h1, hna, h3, hany, Bool.not_true,
+      Bool.false_eq_true]
+
+/-- **re-entrant masters**: whatever efun of the table a master calls on whatever path from inside valid_read /
+    valid_write, the oracle accepts the model of that nested call (its own consultation, its own libc call) -/
+theorem nested_ok (g : String) (p : CStr) : judgeNest g (nestedEvents g p) = [] := by
+  unfold nestedEvents
+  split
+  · exact nest_single_ok _ _ _ _ _ _ (by decide) (by decide)
+  · exact nest_single_ok _ _ _ _ _ _ (by decide) (by decide)
+  · exact nest_single_ok _ _ _ _ _ _ (by decide) (by decide)
+  · exact nest_single_ok _ _ _ _ _ _ (by decide) (by decide)
+  · rfl
+
+/-- one consultation, with or without the master's own nested call in front of it -/
+theorem segOk_askEv (f : String) (pol : Policy) (w : Bool) (path : CStr) (op : String) (apps : List Approval)
+    (rest : List Ev) :
+    segOk f apps (askEv pol w path op ++ rest) ↔
+      (opOk f op = true ∧ segOk f ((approvalOf w (pol.verdict w path) path).toList ++ apps) rest) := by
+  unfold askEv
+  cases pol <;> simp [nestPrefix, segOk, nested_ok, whoObj]
+
+theorem segOk_askEv_nil (f : String) (pol : Policy) (w : Bool) (path : CStr) (op : String) (apps : List Approval) :
+    segOk f apps (askEv pol w path op) ↔ opOk f op = true := by
+  have := segOk_askEv f pol w path op apps []
+  simpa [segOk] using this
+
 /-! ### the efuns -/
 
 theorem segOk_single (f : String) (pol : Policy) (w : Bool) (op fn : String) (fw : Bool) (a : CStr)
@@ -177,10 +244,10 @@ theorem segOk_single (f : String) (pol : Policy) (w : Bool) (op fn : String) (fw
   unfold single ask
   simp only
   cases h : checkValidPath true (pol.verdict w a) a with
-  | none => simp [segOk, hop]
+  | none => simp [segOk_askEv_nil, segOk_askEv, segOk, hop]
   | some P =>
     obtain ⟨h1, h2, h3, _⟩ := approved w _ _ _ h
-    simp only [List.singleton_append, segOk, h1, Option.toList_some, hop, h3, true_and, and_true]
+    simp only [List.singleton_append, segOk_askEv, segOk_askEv_nil, segOk, h1, Option.toList_some, hop, h3, true_and, and_true]
     exact any_okBy _ fn fw P ⟨w, P⟩ (by simp) h2 (covers_self _ P) hk
 
 theorem covers_listDir (fn : String) (a : CStr) (h : fn = "stat" ∨ fn = "opendir") :
@@ -274,10 +341,10 @@ theorem segOk_getDirFs (f : String) (ex : List CStr) (P : CStr) (fl : Bool) (app
     simp only
     split <;> split
     · simp [segOk, k1, s1]
-    · simp only [List.cons_append, List.nil_append, segOk, k1, k3, s1, s2, true_and]
+    · simp only [List.cons_append, List.nil_append, segOk_askEv, segOk_askEv_nil, segOk, k1, k3, s1, s2, true_and]
       exact e2 _
     · simp [segOk, k1, s1]
-    · simp only [List.cons_append, List.nil_append, segOk, k1, k2, s1, true_and]
+    · simp only [List.cons_append, List.nil_append, segOk_askEv, segOk_askEv_nil, segOk, k1, k2, s1, true_and]
       exact e1
 
 theorem segOk_getDir (f : String) (pol : Policy) (ex : List CStr) (a : CStr) (fl : Bool) (apps : List Approval)
@@ -285,10 +352,10 @@ theorem segOk_getDir (f : String) (pol : Policy) (ex : List CStr) (a : CStr) (fl
   unfold getDir ask
   simp only
   cases h : checkValidPath true (pol.verdict false a) a with
-  | none => simp [segOk, hop]
+  | none => simp [segOk_askEv_nil, segOk_askEv, segOk, hop]
   | some P =>
     obtain ⟨h1, h2, h3, h4⟩ := approved false _ _ _ h
-    simp only [List.singleton_append, segOk, h1, Option.toList_some, hop, true_and]
+    simp only [List.singleton_append, segOk_askEv, segOk_askEv_nil, segOk, h1, Option.toList_some, hop, true_and]
     exact segOk_getDirFs f ex P fl _ (by simp) h2 h3 h4
 
 theorem segOk_stat (f : String) (pol : Policy) (ex : List CStr) (a : CStr) (fl : Bool) (apps : List Approval)
@@ -296,10 +363,10 @@ theorem segOk_stat (f : String) (pol : Policy) (ex : List CStr) (a : CStr) (fl :
   unfold statEfun ask
   simp only
   cases h : checkValidPath true (pol.verdict false a) a with
-  | none => simp [segOk, hop]
+  | none => simp [segOk_askEv_nil, segOk_askEv, segOk, hop]
   | some P =>
     obtain ⟨h1, h2, h3, _⟩ := approved false _ _ _ h
-    simp only [List.singleton_append, segOk, h1, Option.toList_some, hop, true_and, h3]
+    simp only [List.singleton_append, segOk_askEv, segOk_askEv_nil, segOk, h1, Option.toList_some, hop, true_and, h3]
     refine ⟨any_okBy _ _ _ _ ⟨false, P⟩ (by simp) h2 (covers_self _ P) (by simp), ?_⟩
     split
     · trivial
@@ -365,34 +432,34 @@ theorem segOk_rename (f : String) (pol : Policy) (ex : List CStr) (sym : Bool) (
   unfold renameEfun ask
   simp only
   cases h1 : checkValidPath true (pol.verdict true a) a with
-  | none => simp [segOk, hop1]
+  | none => simp [segOk_askEv_nil, segOk_askEv, segOk, hop1]
   | some from_ =>
     obtain ⟨a1, l1, s1, n1⟩ := approved true _ _ _ h1
     cases h2 : checkValidPath true (pol.verdict true b) b with
-    | none => simp [segOk, hop1]
+    | none => simp [segOk_askEv_nil, segOk_askEv, segOk, hop1]
     | some to =>
       obtain ⟨a2, l2, s2, n2⟩ := approved true _ _ _ h2
       simp only
       by_cases hfit : renameSrcFits from_ = true
       · simp only [hfit, Bool.not_true, Bool.false_eq_true, ↓reduceIte]
         by_cases hr : (pol.verdict false to).raises = true
-        · simp [hr, segOk, a1, a2, hop1, hop2]
+        · simp [hr, segOk_askEv, segOk_askEv_nil, segOk, a1, a2, hop1, hop2]
         simp only [hr, Bool.false_eq_true, ↓reduceIte]
         cases h3 : checkValidPath true (pol.verdict false to) to with
         | none =>
-          simp only [List.append_assoc, List.singleton_append, List.nil_append, segOk, a1, a2, Option.toList_some,
+          simp only [List.append_assoc, List.singleton_append, List.nil_append, segOk_askEv, segOk_askEv_nil, segOk, a1, a2, Option.toList_some,
             hop1, hop2, true_and, List.cons_append]
           refine segOk_move f sym _ from_ to _ _ ?_ ?_ l1 s1 l2 s2 n2 ?_ <;> simp
         | some q =>
           obtain ⟨a3, l3, s3, _⟩ := approved false _ _ _ h3
-          simp only [List.append_assoc, List.singleton_append, List.nil_append, segOk, a1, a2, a3, Option.toList_some,
+          simp only [List.append_assoc, List.singleton_append, List.nil_append, segOk_askEv, segOk_askEv_nil, segOk, a1, a2, a3, Option.toList_some,
             hop1, hop2, true_and, List.cons_append, s3]
           refine ⟨any_okBy _ _ _ _ ⟨false, q⟩ (by simp) l3 (covers_self _ q) (by simp), ?_⟩
           refine segOk_move f sym _ from_ to _ _ ?_ ?_ l1 s1 l2 s2 n2 ?_
           · simp
           · simp
           · cases decide (lookup ex q = some Kind.dir) <;> simp
-      · simp [hfit, segOk, a1, a2, hop1]
+      · simp [hfit, segOk_askEv, segOk_askEv_nil, segOk, a1, a2, hop1]
 
 theorem segOk_cpTail (f : String) (tl : Bool) (from_ to target : CStr) (apps : List Approval)
     (m2 : (⟨true, to⟩ : Approval) ∈ apps) (s1 : safe from_ = true)
@@ -416,14 +483,14 @@ theorem segOk_cp (f : String) (pol : Policy) (ex : List CStr) (a b : CStr)
   unfold cpEfun ask
   simp only
   cases h1 : checkValidPath true (pol.verdict false a) a with
-  | none => simp [segOk, hop]
+  | none => simp [segOk_askEv_nil, segOk_askEv, segOk, hop]
   | some from_ =>
     obtain ⟨a1, l1, s1, n1⟩ := approved false _ _ _ h1
     cases h2 : checkValidPath true (pol.verdict true b) b with
-    | none => simp [segOk, hop]
+    | none => simp [segOk_askEv_nil, segOk_askEv, segOk, hop]
     | some to =>
       obtain ⟨a2, l2, s2, n2⟩ := approved true _ _ _ h2
-      simp only [List.append_assoc, List.singleton_append, List.nil_append, segOk, a1, a2, Option.toList_some,
+      simp only [List.append_assoc, List.singleton_append, List.nil_append, segOk_askEv, segOk_askEv_nil, segOk, a1, a2, Option.toList_some,
         hop, true_and, List.cons_append, s1]
       refine ⟨any_okBy _ _ _ _ ⟨false, from_⟩ (by simp) l1 (covers_self _ _) (by simp), ?_⟩
       split
@@ -440,7 +507,7 @@ theorem segOk_save (f : String) (pol : Policy) (ex : List CStr) (a : CStr)
   unfold saveEfun ask
   simp only
   cases h : checkValidPath true (pol.verdict true (saveName a)) (saveName a) with
-  | none => simp [segOk, hop]
+  | none => simp [segOk_askEv_nil, segOk_askEv, segOk, hop]
   | some P =>
     obtain ⟨a1, l1, s1, _⟩ := approved true _ _ _ h
     have st : safe (P.take 250 ++ str ".tmp") = true :=
@@ -453,7 +520,7 @@ theorem segOk_save (f : String) (pol : Policy) (ex : List CStr) (a : CStr)
     have k1c := k1 "unlink" (Or.inr (Or.inr rfl))
     have k2 : ∀ fn, (⟨true, P⟩ :: apps : List Approval).any (okBy fn true P) = true :=
       fun fn => any_okBy _ _ _ _ ⟨true, P⟩ (by simp) l1 (covers_self _ P) (by simp)
-    simp only [List.singleton_append, segOk, a1, Option.toList_some, hop, true_and, st, k1a]
+    simp only [List.singleton_append, segOk_askEv, segOk_askEv_nil, segOk, a1, Option.toList_some, hop, true_and, st, k1a]
     split
     · split <;> simp [segOk, st, s1, k1a, k1b, k1c, k2]
     · trivial
@@ -469,14 +536,14 @@ theorem segOk_askIo (f : String) (pol : Policy) (w io : Bool) (file : CStr) (app
   unfold ask edIo
   simp only
   cases h : checkValidPath true (pol.verdict w file) file with
-  | none => simp [segOk, hop]
+  | none => simp [segOk_askEv_nil, segOk_askEv, segOk, hop]
   | some P =>
     obtain ⟨a1, l1, s1, _⟩ := approved w _ _ _ h
-    simp only [List.singleton_append, segOk, a1, Option.toList_some, hop, true_and]
+    simp only [List.singleton_append, segOk_askEv, segOk_askEv_nil, segOk, a1, Option.toList_some, hop, true_and]
     cases io with
     | false => simp [segOk]
     | true =>
-      simp only [↓reduceIte, segOk, s1, true_and, and_true]
+      simp only [↓reduceIte, segOk_askEv, segOk_askEv_nil, segOk, s1, true_and, and_true]
       exact any_okBy _ _ _ _ ⟨w, P⟩ (by simp) l1 (covers_self _ P) (by cases w <;> simp)
 
 theorem edIo_edFit (r : Option CStr) (io w : Bool) : edIo (edFit r) io w = [] ∨ edIo (edFit r) io w = edIo r io w := by
@@ -499,6 +566,8 @@ theorem segOk_prefix (f : String) : ∀ (e1 e2 : List Ev) (apps : List Approval)
     | valid w path who op v => obtain ⟨a, b, c⟩ := h; exact ⟨a, b, ih e2 _ c⟩
     | fs fn w p => obtain ⟨a, b, c⟩ := h; exact ⟨a, b, ih e2 _ c⟩
     | note n => exact ih e2 _ h
+    | nest g w' a' inner => exact ⟨h.1, ih e2 _ h.2⟩
+    | edsave st' name => exact ⟨h.1, ih e2 _ h.2⟩
     | lp _ _ => exact absurd h (by simp [segOk])
     | il _ _ => exact absurd h (by simp [segOk])
     | cvp _ _ _ => exact absurd h (by simp [segOk])
@@ -527,8 +596,18 @@ theorem segOk_getfnIo (f : String) (pol : Policy) (st : EdSt) (w io : Bool) (arg
       · rw [h]; exact base
 
 theorem segOk_edStep (f : String) (pol : Policy) (ex : List CStr) (st : EdSt) (c : EdCmd) (apps : List Approval)
-    (hop : opOk f "ed_start" = true) : segOk f apps (edStep pol ex st c).1 := by
+    (hf : f = "ed") (hop : opOk f "ed_start" = true) : segOk f apps (edStep pol ex st c).1 := by
   cases c with
+  | D name =>
+    simp only [edStep, segOk]
+    refine ⟨hf, ?_⟩
+    split
+    · rename_i hl
+      have hs : safe (stripOneSlash name) = true := legal_path_safe _ hl
+      have hl' : specLegal (stripOneSlash name) = true := by rw [← legalPath_eq_spec]; exact hl
+      simp only [segOk, hs, true_and, and_true]
+      exact any_okBy _ _ _ _ ⟨true, stripOneSlash name⟩ (by simp) hl' (covers_self _ _) (by simp)
+    · trivial
   | start file => exact segOk_askIo f pol false true file apps hop
   | a t => simp [edStep, segOk]
   | e arg =>
@@ -583,7 +662,7 @@ theorem efun_segOk (pol : Policy) (ex : List CStr) (efun : String) (a b : CStr) 
   · exact segOk_rename _ _ _ _ _ _ _ (by decide) (by decide)
   · exact segOk_cp _ _ _ _ _ _ (by decide)
   · exact segOk_save _ _ _ _ _ (by decide)
-  · exact segOk_edStep _ _ _ _ _ _ (by decide)
+  · exact segOk_edStep _ _ _ _ _ _ rfl (by decide)
   · exact segOk_getDir _ _ _ _ _ _ (by decide)
   · exact segOk_stat _ _ _ _ _ _ (by decide)
 
@@ -599,17 +678,17 @@ theorem model_satisfies_spec (pol : Policy) (ex : List CStr) (efun : String) (ar
 /-! ### a master without valid_read / valid_write -/
 
 theorem fold_absent (f : String) : ∀ (evs : List Ev) (apps : List Approval) (s : JState),
-    s.absent = true → segOk f apps evs →
-    (evs.filter (fun e => !e.isValid)).foldl judgeStep s = s := by
+    s.absent = true → s.efun = f → segOk f apps evs →
+    ∃ apps', (evs.filter (fun e => !e.isValid)).foldl judgeStep s = { s with approvals := apps' } := by
   intro evs
   induction evs with
-  | nil => intro _ s _ _; rfl
+  | nil => intro _ s _ _ _; exact ⟨s.approvals, rfl⟩
   | cons e rest ih =>
-    intro apps s ha hs
+    intro apps s ha he hs
     cases e with
     | valid w path who op v =>
       obtain ⟨_, _, h3⟩ := hs
-      simpa [Ev.isValid] using ih _ s ha h3
+      simpa [Ev.isValid] using ih _ s ha he h3
     | fs fn w p =>
       obtain ⟨h1, _, h3⟩ := hs
       have hna : absolute p = false := by
@@ -617,10 +696,22 @@ theorem fold_absent (f : String) : ∀ (evs : List Ev) (apps : List Approval) (s
       have hstep : judgeStep s (.fs fn w p) = s := by
         simp [judgeStep, hna, h1, ha]
       simp only [Ev.isValid, Bool.not_false, List.filter_cons_of_pos, List.foldl_cons, hstep]
-      exact ih apps s ha h3
+      exact ih apps s ha he h3
     | note n =>
       simp only [Ev.isValid, Bool.not_false, List.filter_cons_of_pos, List.foldl_cons]
-      exact ih apps s ha hs
+      exact ih apps s ha he hs
+    | nest g w' a' inner =>
+      have hstep : judgeStep s (.nest g w' a' inner) = s := by simp [judgeStep, hs.1]
+      simp only [Ev.isValid, Bool.not_false, List.filter_cons_of_pos, List.foldl_cons, hstep]
+      exact ih apps s ha he hs.2
+    | edsave st' name =>
+      obtain ⟨h1, h2⟩ := hs
+      subst h1
+      have hstep : judgeStep s (.edsave st' name) = { s with approvals := ⟨true, stripOneSlash name⟩ :: s.approvals } := by
+        simp [judgeStep, he]
+      rw [List.filter_cons_of_pos (by rfl), List.foldl_cons, hstep]
+      obtain ⟨apps', h⟩ := ih _ { s with approvals := ⟨true, stripOneSlash name⟩ :: s.approvals } ha he h2
+      exact ⟨apps', by rw [h]⟩
     | lp _ _ => exact absurd hs (by simp [segOk])
     | il _ _ => exact absurd hs (by simp [segOk])
     | cvp _ _ _ => exact absurd hs (by simp [segOk])
@@ -637,7 +728,7 @@ theorem model_satisfies_spec_absent (pol : Policy) (ex : List CStr) (efun : Stri
     judgeEv (.mode true :: .call efun whoObj args :: sysEvents true pol ex efun a b) = [] := by
   unfold judgeEv sysEvents
   simp only [↓reduceIte, List.foldl_cons]
-  have := fold_absent efun _ [] (judgeStep (judgeStep {} (.mode true)) (.call efun whoObj args)) rfl
+  obtain ⟨apps', this⟩ := fold_absent efun _ [] (judgeStep (judgeStep {} (.mode true)) (.call efun whoObj args)) rfl rfl
     (efun_segOk .allow ex efun a b h)
   rw [this]; rfl
 
@@ -662,7 +753,7 @@ theorem fold_session (pol : Policy) (ex : List CStr) : ∀ (cmds : List EdCmd) (
       rw [List.cons_append, List.foldl_cons, List.foldl_append]
       apply ih
       exact fold_ok "ed" (by decide) _ (judgeStep s (.call "ed" whoObj c.callArgs)) (by simpa [judgeStep] using hb)
-        rfl rfl (segOk_edStep "ed" pol ex st c [] (by decide))
+        rfl rfl (segOk_edStep "ed" pol ex st c [] rfl (by decide))
     · simp only [hr, Bool.false_eq_true, ↓reduceIte]; exact ih st s hb
 
 /-- **model_satisfies_spec for editing sessions**: for every sequence of editor commands (ed (file), text input,
@@ -687,7 +778,9 @@ theorem fold_session_absent (ex : List CStr) : ∀ (cmds : List EdCmd) (st : EdS
     by_cases hr : edRuns st c = true
     · simp only [hr, ↓reduceIte]
       rw [List.cons_append, List.filter_cons_of_pos (by rfl), List.filter_append, List.foldl_cons, List.foldl_append]
-      rw [fold_absent "ed" _ [] _ (by simpa [judgeStep] using ha) (segOk_edStep "ed" .allow ex st c [] (by decide))]
+      obtain ⟨apps', hfa⟩ := fold_absent "ed" _ [] (judgeStep s (.call "ed" whoObj c.callArgs))
+        (by simpa [judgeStep] using ha) rfl (segOk_edStep "ed" .allow ex st c [] rfl (by decide))
+      rw [hfa]
       exact ih _ _ (by simpa [judgeStep] using hb) (by simpa [judgeStep] using ha)
     · simp only [hr, Bool.false_eq_true, ↓reduceIte]; exact ih st s hb ha
 
